@@ -238,6 +238,10 @@ type c16An struct {
 	bcast       map[*ssa.Function]map[string]bool
 	pred        map[string]map[string]bool
 	waitFns     map[*ssa.Function]bool
+	dynCallers  map[*ssa.Function][]callSite
+	notifyFam   map[string]bool
+	famFields   map[string]int
+	dynCallees  map[ssa.Instruction][]*ssa.Function
 	waitHelpers map[*ssa.Function]bool
 	mustMemo    map[string]bool
 	mustBusy    map[string]bool
@@ -278,6 +282,63 @@ func (a *c16An) isNotify(t types.Type) bool {
 
 func (a *c16An) notifyName() string { return c16TypeName(a.notifyT) }
 
+// notifyFamily: Notify and the struct types nested in it by value (its channel and mutex may
+// live one level down, in a value-embedded helper struct with its own methods).
+func (a *c16An) notifyFamily() map[string]bool {
+	if a.notifyFam != nil {
+		return a.notifyFam
+	}
+	a.notifyFam = map[string]bool{}
+	var add func(n *types.Named, depth int)
+	add = func(n *types.Named, depth int) {
+		if n == nil || depth > 4 || a.notifyFam[c16TypeName(n)] {
+			return
+		}
+		st, ok := n.Underlying().(*types.Struct)
+		if !ok || n.Obj().Pkg() == nil || n.Obj().Pkg().Path() != c16PkgNotify {
+			return
+		}
+		a.notifyFam[c16TypeName(n)] = true
+		for i := 0; i < st.NumFields(); i++ {
+			if fn, ok := types.Unalias(st.Field(i).Type()).(*types.Named); ok {
+				add(fn, depth+1)
+			}
+		}
+	}
+	add(a.notifyT, 0)
+	return a.notifyFam
+}
+
+func (a *c16An) inNotifyFamily(t types.Type) bool {
+	n := c16Named(t)
+	return n != nil && a.notifyFamily()[c16TypeName(n)]
+}
+
+// famFieldID: a small integer naming (struct type of the notify family, field) for a field
+// address, -1 for fields of other types. The same field has the same id whether it is reached
+// from a *Notify or from a pointer to the nested struct inside one of that struct's methods.
+func (a *c16An) famFieldID(fa *ssa.FieldAddr) int {
+	pt, ok := fa.X.Type().Underlying().(*types.Pointer)
+	if !ok {
+		return -1
+	}
+	n, _ := types.Unalias(pt.Elem()).(*types.Named)
+	if n == nil || !a.notifyFamily()[c16TypeName(n)] {
+		return -1
+	}
+	st := n.Underlying().(*types.Struct)
+	key := c16TypeName(n) + "." + st.Field(fa.Field).Name()
+	if a.famFields == nil {
+		a.famFields = map[string]int{}
+	}
+	id, ok := a.famFields[key]
+	if !ok {
+		id = len(a.famFields)
+		a.famFields[key] = id
+	}
+	return id
+}
+
 // lockKey: the canonical key of a lock operation in fn ("class/M"); relative ("~.L/W") for
 // locks reached from the receiver inside methods of Notify.
 func (a *c16An) lockKey(op lockOp, recv ssa.Value) string {
@@ -289,9 +350,10 @@ func (a *c16An) lockKey(op lockOp, recv ssa.Value) string {
 }
 
 func (a *c16An) canonClass(cls string) string {
-	nn := a.notifyName()
-	if cls == nn || strings.HasPrefix(cls, nn+".") {
-		return "~" + strings.TrimPrefix(cls, nn)
+	for nn := range a.notifyFamily() {
+		if cls == nn || strings.HasPrefix(cls, nn+".") {
+			return "~" + strings.TrimPrefix(cls, nn)
+		}
 	}
 	return a.find(cls)
 }
@@ -313,15 +375,17 @@ func (a *c16An) subst(key string, site ssa.CallInstruction) string {
 		return key
 	}
 	cc := site.Common()
-	if cc.IsInvoke() || len(cc.Args) == 0 || !a.isNotify(cc.Args[0].Type()) {
+	if cc.IsInvoke() || len(cc.Args) == 0 || !a.inNotifyFamily(cc.Args[0].Type()) {
 		return key
 	}
 	rc := c16Class(cc.Args[0])
 	if rc == "" {
 		return "?" + key[1:]
 	}
-	if rc == a.notifyName() {
-		return key
+	if rel := a.canonClass(rc); strings.HasPrefix(rel, "~") {
+		// still relative to a receiver of the notify family (a method of Notify calling a
+		// method of its nested struct): "~" + path of the nested field + rest
+		return rel + key[1:]
 	}
 	i := strings.LastIndex(key, "/")
 	return a.find(rc+key[1:i]) + key[i:]
@@ -508,7 +572,7 @@ func (a *c16An) entryMust(fn *ssa.Function) lockSet {
 	if s, ok := a.entry[fn]; ok {
 		return s
 	}
-	if c16IsRoot(a.w, fn) {
+	if (c16IsRoot(a.w, fn) && len(a.dynCallers[fn]) == 0) || (fn.Object() != nil && fn.Object().Exported()) {
 		a.entry[fn] = lockSet{}
 		return a.entry[fn]
 	}
@@ -519,7 +583,7 @@ func (a *c16An) entryMust(fn *ssa.Function) lockSet {
 	defer delete(a.entryBusy, fn)
 	var acc lockSet
 	first := true
-	for _, cs := range a.w.callGraph().callers[fn] {
+	for _, cs := range a.callersOf(fn) {
 		var at lockSet
 		switch cs.Instr.(type) {
 		case *ssa.Go, *ssa.Defer:
@@ -576,12 +640,93 @@ func c16Holds(s lockSet, class string, mode byte) bool {
 // acquisition summaries and the lock-order graph
 
 func (a *c16An) callees(ci ssa.CallInstruction) []*ssa.Function {
-	return a.w.resolve(ci.Common(), a.ifaceC)
+	out := a.w.resolve(ci.Common(), a.ifaceC)
+	if dyn := a.dynCallees[ci.(ssa.Instruction)]; len(dyn) > 0 {
+		out = append(append([]*ssa.Function(nil), out...), dyn...)
+	}
+	return out
+}
+
+// callersOf: the static call sites of fn plus, for a closure or function value handed to a
+// module helper that calls its func parameter (the withLock(func()) idiom), the calls of that
+// parameter inside the helper.
+func (a *c16An) callersOf(fn *ssa.Function) []callSite {
+	st := a.w.callGraph().callers[fn]
+	dyn := a.dynCallers[fn]
+	if len(dyn) == 0 {
+		return st
+	}
+	return append(append([]callSite(nil), st...), dyn...)
+}
+
+// buildDyn finds the functions that are only ever run through the func parameter of a module
+// helper: the helper's parameter is used for nothing but being called, and the closure (or
+// function value) passed for it is used for nothing but that call of the helper.
+func (a *c16An) buildDyn() {
+	a.dynCallers = map[*ssa.Function][]callSite{}
+	a.dynCallees = map[ssa.Instruction][]*ssa.Function{}
+	cg := a.w.callGraph()
+	for _, h := range a.w.ModFuncs {
+		for pi, prm := range h.Params {
+			if _, isSig := prm.Type().Underlying().(*types.Signature); !isSig || prm.Referrers() == nil {
+				continue
+			}
+			var calls []ssa.CallInstruction
+			onlyCalled := true
+			for _, r := range *prm.Referrers() {
+				if ci, isCall := r.(ssa.CallInstruction); isCall && ci.Common().Value == ssa.Value(prm) {
+					calls = append(calls, ci)
+					continue
+				}
+				if _, isDbg := r.(*ssa.DebugRef); isDbg {
+					continue
+				}
+				onlyCalled = false
+			}
+			if !onlyCalled || len(calls) == 0 {
+				continue
+			}
+			for _, cs := range cg.callers[h] {
+				call, isCall := cs.Instr.(*ssa.Call)
+				if !isCall || staticCallee(call.Common()) != h || pi >= len(call.Common().Args) {
+					continue
+				}
+				var target *ssa.Function
+				var holder ssa.Value
+				switch x := call.Common().Args[pi].(type) {
+				case *ssa.MakeClosure:
+					target, _ = x.Fn.(*ssa.Function)
+					holder = x
+				case *ssa.Function:
+					target = x
+				}
+				if target == nil || target.Blocks == nil {
+					continue
+				}
+				if holder != nil && holder.Referrers() != nil {
+					other := false
+					for _, r := range *holder.Referrers() {
+						if r != ssa.Instruction(call) {
+							if _, isDbg := r.(*ssa.DebugRef); !isDbg {
+								other = true
+							}
+						}
+					}
+					if other {
+						continue
+					}
+				}
+				for _, ci := range calls {
+					a.dynCallers[target] = append(a.dynCallers[target], callSite{h, ci})
+					a.dynCallees[ci.(ssa.Instruction)] = append(a.dynCallees[ci.(ssa.Instruction)], target)
+				}
+			}
+		}
+	}
 }
 
 func (a *c16An) computeAcq() {
 	a.acq = map[*ssa.Function]map[string]c16Acq{}
-	cg := a.w.callGraph()
 	var work []*ssa.Function
 	queued := map[*ssa.Function]bool{}
 	add := func(fn *ssa.Function, q c16Acq) {
@@ -628,7 +773,7 @@ func (a *c16An) computeAcq() {
 			ids = append(ids, id)
 		}
 		sort.Strings(ids)
-		for _, cs := range cg.callers[callee] {
+		for _, cs := range a.callersOf(callee) {
 			if _, isGo := cs.Instr.(*ssa.Go); isGo {
 				continue
 			}
@@ -1339,6 +1484,7 @@ func runC16(c *Ctx) {
 		c.undecided("D1", "lock-of-condition", token.NoPos, "cannot resolve which lock a condition is built on: %s", u)
 	}
 	c.count("conditions (struct fields of type *notify.Notify)", len(a.conds))
+	a.buildDyn()
 	a.computeAcq()
 	lap("acq")
 	waits := a.waitSites()
@@ -2081,9 +2227,34 @@ func (a *c16An) checkD4() {
 	sigField := a.chanField(signal, 0)
 	var closeCall ssa.CallInstruction
 	closedField := -1
-	for _, ci := range callsIn(a.fnBcast, keyIs("builtin.close")) {
-		closeCall = ci
-		closedField = a.chanField(ci.Common().Args[0], 0)
+	// the close may sit in a method of the nested struct that Broadcast calls
+	bfuncs := []*ssa.Function{a.fnBcast}
+	for i := 0; i < len(bfuncs) && i < 8; i++ {
+		for _, ci := range callsIn(bfuncs[i], func(string, *ssa.CallCommon) bool { return true }) {
+			if _, isGo := ci.(*ssa.Go); isGo {
+				continue
+			}
+			f := staticCallee(ci.Common())
+			if f == nil || f.Blocks == nil || fnPkg(f) == nil || fnPkg(f).Path() != c16PkgNotify {
+				continue
+			}
+			dup := false
+			for _, g := range bfuncs {
+				if g == f {
+					dup = true
+				}
+			}
+			if !dup {
+				bfuncs = append(bfuncs, f)
+			}
+		}
+	}
+	for _, f := range bfuncs {
+		c.analysed(f)
+		for _, ci := range callsIn(f, keyIs("builtin.close")) {
+			closeCall = ci
+			closedField = a.chanField(ci.Common().Args[0], 0)
+		}
 	}
 	bname := fnName(a.fnBcast)
 	switch {
@@ -2097,14 +2268,14 @@ func (a *c16An) checkD4() {
 	}
 	if closeCall != nil && closedField >= 0 {
 		forgot := false
-		for _, b := range a.fnBcast.Blocks {
+		for _, b := range closeCall.Parent().Blocks {
 			for _, in := range b.Instrs {
 				st, ok := in.(*ssa.Store)
 				if !ok {
 					continue
 				}
 				fa, ok := st.Addr.(*ssa.FieldAddr)
-				if !ok || fa.Field != closedField || !a.isNotify(fa.X.Type()) || st.Val == closeCall.Common().Args[0] {
+				if !ok || a.famFieldID(fa) != closedField || st.Val == closeCall.Common().Args[0] {
 					continue
 				}
 				closed, isIn := closeCall.Common().Args[0].(ssa.Instruction)
@@ -2144,7 +2315,7 @@ func (a *c16An) checkChanFieldWrites(field int) {
 			return nil
 		}
 		fa, ok := ld.X.(*ssa.FieldAddr)
-		if !ok || fa.Field != field || !a.isNotify(fa.X.Type()) {
+		if !ok || a.famFieldID(fa) != field {
 			return nil
 		}
 		return ld
@@ -2162,7 +2333,7 @@ func (a *c16An) checkChanFieldWrites(field int) {
 					continue
 				}
 				fa, ok := st.Addr.(*ssa.FieldAddr)
-				if !ok || fa.Field != field || !a.isNotify(fa.X.Type()) || c16FreshAlloc(fa.X) {
+				if !ok || a.famFieldID(fa) != field || c16FreshAlloc(fa.X) {
 					continue
 				}
 				n++
@@ -2242,8 +2413,10 @@ func (a *c16An) chanField(v ssa.Value, depth int) int {
 		return a.chanField(x.X, depth+1)
 	case *ssa.UnOp:
 		if x.Op == token.MUL {
-			if fa, ok := x.X.(*ssa.FieldAddr); ok && a.isNotify(fa.X.Type()) {
-				return fa.Field
+			if fa, ok := x.X.(*ssa.FieldAddr); ok {
+				if id := a.famFieldID(fa); id >= 0 {
+					return id
+				}
 			}
 		}
 	case *ssa.Phi:
@@ -2475,7 +2648,7 @@ func (a *c16An) computeBcast() {
 	for len(work) > 0 {
 		callee := work[0]
 		work = work[1:]
-		for _, cs := range cg.callers[callee] {
+		for _, cs := range a.callersOf(callee) {
 			if _, isGo := cs.Instr.(*ssa.Go); isGo {
 				continue
 			}
